@@ -403,6 +403,8 @@ class StmtMixin:
             self.iter_info[order.get_id()] = it.term
             self.assumptions.add('iteration over a set yields an arbitrary order (fresh permutation per iteration site)')
             return IterView('seq', [order])
+        if isinstance(it, VBox) and it.kind == 'dict':
+            return IterView('dict', [], parts=[(it, 'keys')])
         if isinstance(it, VBox) and it.kind in ('list', 'deque') or (z3.is_expr(it) and isinstance(it.sort(), z3.SeqSortRef) and not z3.is_string(it)):
             t = simp(self.seqterm(it))
             if self.seq_concrete_items(t) is not None:
@@ -444,17 +446,30 @@ class StmtMixin:
         names, lvals = self.loop_targets(s)
         tnames = {n.id for n in ast.walk(s.target) if isinstance(n, ast.Name)} if isinstance(s, ast.For) else set()
 
+        dictview = view is not None and view.kind == 'dict'
+
+        def state_env(i):
+            if dictview:
+                # iteration over dict(s): the ghost state is the set of keys visited so far, per iterated dict
+                env = {f'__seen{j}': VBox('set', t_, view.parts[j][0].esort) for j, t_ in enumerate(i)}
+                env['__seen'] = env['__seen0']
+                return env
+            return {'__i': i}
+
         def inv_terms(i):
-            f2 = Frame(None, {'__i': i}, fr.module, fr, cf.contract)
+            f2 = Frame(None, state_env(i), fr.module, fr, cf.contract)
             f2.extra = dict(self.contract_names(cf))
             out = []
             for txt in lc.invariant:
                 out.append((txt, self.ev_text(txt, f2)))
             return out
 
-        n = view.length() if view is not None else None
+        n = view.length() if (view is not None and not dictview) else None
+        if dictview:
+            snap = [(b.term, b.vsort) for b, _m in view.parts]
+            empty = [z3.K(h.sort().domain(), False) for h, _v in snap]
         # ---- init
-        for j, (txt, g) in enumerate(inv_terms(0)):
+        for j, (txt, g) in enumerate(inv_terms(list(empty) if dictview else 0)):
             self.oblige(f'inv-init#loop{k}.{j}', g, s, txt)
         # ---- havoc
         for nm in sorted(names - tnames):
@@ -470,6 +485,7 @@ class StmtMixin:
                     fr.env[nm] = self.fresh_like(v, nm)
         if isinstance(p.yields, VBox) and any(isinstance(n_, (ast.Yield, ast.YieldFrom)) for n_ in ast.walk(s)):
             self.havoc_inplace(p.yields, '__yield__')
+        havocked = {nm for nm in names - tnames if nm in lc.locals}
         for lv in lvals:
             root = lv
             # havoc the object the lvalue lives in
@@ -477,7 +493,9 @@ class StmtMixin:
                 if isinstance(lv, ast.Name):
                     obj = self.ev(lv, fr)
                     if lv.id in lc.locals:
-                        fr.env[lv.id] = self.sym_of_sort(lc.locals[lv.id], lv.id, fr)
+                        if lv.id not in havocked:
+                            fr.env[lv.id] = self.sym_of_sort(lc.locals[lv.id], lv.id, fr)
+                            havocked.add(lv.id)
                         continue
                     if isinstance(obj, (VBox, VStruct)):
                         self.havoc_inplace(obj, lv.id)
@@ -495,6 +513,11 @@ class StmtMixin:
                         else:
                             raise Unsupported(f'havoc of None field {a}')
                 elif isinstance(lv, ast.Subscript):
+                    if isinstance(lv.value, ast.Name) and lv.value.id in lc.locals:
+                        if lv.value.id not in havocked:
+                            fr.env[lv.value.id] = self.sym_of_sort(lc.locals[lv.value.id], lv.value.id, fr)
+                            havocked.add(lv.value.id)
+                        continue
                     base = self.ev(lv.value, fr)
                     if isinstance(base, (VBox, VStruct)):
                         self.havoc_inplace(base, 'sub')
@@ -502,23 +525,58 @@ class StmtMixin:
                         raise Unsupported('havoc of subscript base')
             except Unsupported:
                 raise
-        i = p.fresh(z3.IntSort(), f'__i{k}')
-        p.assume(i >= 0)
-        if n is not None:
-            p.assume(i <= n)
+        if dictview:
+            # arbitrary reachable iteration state: seen_j subset of dict_j; a later dict is started only when the earlier
+            # ones are exhausted (itertools.chain)
+            i = [p.fresh(h.sort(), f'__seen{k}_{j}') for j, (h, _v) in enumerate(snap)]
+            x_ = z3.Const(f'__k{k}', snap[0][0].sort().domain())
+            for j, (h, _v) in enumerate(snap):
+                p.assume(z3.ForAll([x_], z3.Implies(z3.Select(i[j], x_), z3.Select(h, x_))), heavy=True)
+                for m_ in range(j):
+                    p.assume(z3.Or(i[j] == empty[j], i[m_] == snap[m_][0]))
+            self.assumptions.add('iteration over a dict visits every key exactly once, in an arbitrary order (ghost: set of keys visited so far); the dict is not resized during the iteration')
+        else:
+            i = p.fresh(z3.IntSort(), f'__i{k}')
+            p.assume(i >= 0)
+            if n is not None:
+                p.assume(i <= n)
         for txt, g in inv_terms(i):
             p.assume(g, heavy=True)
-        if isinstance(s, ast.For):
+        if dictview:
+            more = z3.Or(*[i[j] != snap[j][0] for j in range(len(snap))])
+        elif isinstance(s, ast.For):
             more = i < n
         else:
             more = self.truth(self.ev(s.test, fr))
         d = more if isinstance(more, bool) else p.branch(more)
         if d:
-            if isinstance(s, ast.For):
+            if dictview:
+                ph = None
+                for j in range(len(snap)):
+                    last = j == len(snap) - 1
+                    c_ = i[j] != snap[j][0]
+                    if (p.assume(c_) or True) if last else p.branch(c_):
+                        ph = j
+                        break
+                h_, v_ = snap[ph]
+                kx = p.fresh(h_.sort().domain(), f'__key{k}')
+                p.assume(z3.And(z3.Select(h_, kx), z3.Not(z3.Select(i[ph], kx))))
+                for j in range(len(snap)):
+                    if j < ph:
+                        p.assume(i[j] == snap[j][0])
+                    elif j > ph:
+                        p.assume(i[j] == empty[j])
+                self.assign(s.target, view.item(ph, kx, v_, self), fr)
+                nxt = list(i)
+                nxt[ph] = z3.Store(i[ph], kx, True)
+            elif isinstance(s, ast.For):
                 self.assign(s.target, view.at(i), fr)
+                nxt = i + 1
+            else:
+                nxt = i + 1
             measure0 = None
             if lc.decreases:
-                f2 = Frame(None, {'__i': i}, fr.module, fr, cf.contract)
+                f2 = Frame(None, state_env(i), fr.module, fr, cf.contract)
                 f2.extra = dict(self.contract_names(cf))
                 measure0 = self.ev_text_value(lc.decreases, f2)
             try:
@@ -527,10 +585,13 @@ class StmtMixin:
                 pass
             except BreakSig:
                 return       # leaves the loop with the state at the break; no else clause
-            for j, (txt, g) in enumerate(inv_terms(i + 1)):
+            if dictview:
+                for (b, _m), (h0, v0) in zip(view.parts, snap):
+                    self.oblige('safety:dict-resized-during-iteration', b.term == h0, s, 'the iterated dict keeps its key set inside the loop body')
+            for j, (txt, g) in enumerate(inv_terms(nxt)):
                 self.oblige(f'inv-preserve#loop{k}.{j}', g, s, txt)
             if lc.decreases:
-                f2 = Frame(None, {'__i': i + 1}, fr.module, fr, cf.contract)
+                f2 = Frame(None, state_env(nxt), fr.module, fr, cf.contract)
                 f2.extra = dict(self.contract_names(cf))
                 m1 = self.ev_text_value(lc.decreases, f2)
                 self.oblige(f'decreases#loop{k}', z3.And(measure0 >= 0, m1 < measure0), s, lc.decreases)
@@ -565,10 +626,22 @@ class StmtMixin:
 
 class IterView:
     """a view over symbolic sequences being iterated: seq / reversed / zip / enumerate"""
-    def __init__(self, kind, seqs, inner=None):
+    def __init__(self, kind, seqs, inner=None, parts=None):
         self.kind, self.seqs, self.inner = kind, seqs, inner
+        self.parts = parts          # kind 'dict': [(dict box, 'items'|'keys'|'values')] — several when chained
+
+    def item(self, ph, key, vals, interp):
+        box, mode = self.parts[ph]
+        kv = interp.wrap_sort(key, box.esort) if box.esort is not None else key
+        if mode == 'keys':
+            return kv
+        val = z3.Select(vals, key)
+        vv = interp.wrap_sort(val, box.keys) if box.keys is not None else val
+        return vv if mode == 'values' else (kv, vv)
 
     def length(self):
+        if self.kind == 'dict':
+            raise Unsupported('length of a dict view')
         if self.kind in ('seq', 'rev'):
             return z3.Length(self.seqs[0])
         if self.kind == 'enum':
